@@ -39,13 +39,15 @@ def gen_plan(rng, tier, index):
     ops = []
     for _ in range(n_ops):
         op = rng.wpick([('bootstrap_sample', 4), ('bootstrap_sample_rdm', 2), ('bootstrap_sample_pattern', 3),
-                        ('subsample', 1), ('subsample_pattern', 1.5)])
+                        ('subsample', 1), ('subsample_pattern', 1.5), ('reorder', 1), ('sort_by', 0.7), ('get_matrices', 0.5)])
         o = {'op': op, 'src': rng.randrange(0, 8) if rng.chance(0.45) else 0,
              'rdm_desc': rng.pick(['grp', 'grp', 'index', 'uid']),
-             'pat_desc': rng.pick(['grp', 'grp', 'index', 'uid'])}
+             'pat_desc': rng.pick(['grp', 'grp', 'index', 'uid'] + (['pos'] if 'pos' in spec['pat_desc'] else []))}
         if op in ('subsample', 'subsample_pattern'):
             o['picks'] = [rng.randrange(0, 12) for _ in range(rng.randint(1, 7))]
             o['as_array'] = rng.chance(0.5)
+        if op in ('reorder', 'sort_by'):
+            o['perm_seed'] = rng.randrange(10 ** 6)
         ops.append(o)
     kinds = rng.subset(RANDINT_FAULTS, 0.2, 0.9)
     return {'spec': spec, 'ops': ops,
@@ -222,6 +224,28 @@ def execute(plan, ctx):
             k0 = len(seam.served)
             all_r = Counter(r_uids)
             all_c = Counter(p_uids)
+            if op in ('reorder', 'sort_by', 'get_matrices'):
+                # a documented in-place re-ordering (or a mere read of the square form) of the object that later draws
+                # resample: the draws afterwards must still be faithful to the object as it is now
+                import random as _random
+                try:
+                    if op == 'get_matrices':
+                        src.get_matrices()
+                    elif op == 'reorder':
+                        perm = list(range(src.n_cond))
+                        _random.Random(o['perm_seed']).shuffle(perm)
+                        src.reorder(perm)
+                    else:
+                        src.sort_by(**{'uid': 'alpha'})
+                except Exception as e:
+                    ctx.probe('inplace_op_raised')
+                    continue
+                probs = check_assoc(src, *tabs)
+                if probs:
+                    ctx.probe('source_inconsistent_after_inplace_op')     # C10's business; do not resample from it
+                    objs = [x for x in objs if x is not src] or [gen.build_rdms(spec)]
+                ctx.probe('inplace_ops_between_draws')
+                continue
             try:
                 if op == 'bootstrap_sample':
                     sample, rdm_idx, pattern_idx = bootstrap_sample(src, rdm_descriptor=rd, pattern_descriptor=pdn)
